@@ -39,6 +39,8 @@ MXSS = ["<style><!--</style><img src=x onerror=alert(1)>-->", "<title>&lt;img sr
         "<keygen autofocus onfocus=1>", "<details open ontoggle=1>", "<marquee onstart=1>", "<video><source onerror=1>", "<body onload=1>", "<input type=image src=x onerror=1>", "<isindex action=javascript:1>",
         "<template><script>x</script></template>", "<frameset><frame src=javascript:1>",
         # doctype identifiers and attribute values whose safety rests on what the tokenizer can (not) put into them
+        "<p><b title=\"</textarea><img src=x onerror=alert(1)>\"></p><textarea>x</textarea>", "<i id='</title><script>x</script>'><title>t</title>", "<a href=\"x</textarea><img src=x onerror=1>\"><textarea>\ny",
+        "<b class='</textarea><svg onload=1>'><table><tr><td><textarea>z",
         "<!DOCTYPE html PUBLIC 'x><img src=x onerror=alert(1)>'>", "<!DOCTYPE html PUBLIC \"x><script>alert(1)</script>\">", "<!DOCTYPE html SYSTEM 'a><img src=x onerror=1>'>",
         "<!DOCTYPE a><img onerror=1>", "<!DOCTYPE html PUBLIC \"-//x\" 'y><svg onload=1>'>", "<!DOCTYPE html PUBLIC 'a\"><img src=x onerror=1>'>",
         "<a title=\"x\x0bonmouseover\">", "<p title='a&#11;onclick'>", "<a title=\"x\x1conmouseover\">", "<b title='a\x0conclick=1'>", "<i title=\"a\u2028onclick\" lang=\"b\xa0onfocus\">",
